@@ -11,10 +11,13 @@ import (
 	"math/rand"
 	"os"
 	"sort"
+	"time"
 
 	"verifharness/absx"
 	"verifharness/walk"
 )
+
+var zones = []*time.Location{time.UTC, time.FixedZone("KST", 9*3600), time.FixedZone("NST", -(3*3600 + 1800)), time.FixedZone("LINT", 14*3600)}
 
 type Impl interface {
 	walk.Impl
@@ -152,7 +155,11 @@ func Run(g *walk.Graph, mk func() Impl, nPaths, maxLen, k int, seed int64, outPa
 				if sf, ok := reps[r].(interface{ SpecFork() walk.Impl }); ok && r%2 == 1 && ty != "RegisterPlan" && ty != "InitGenesis" && ty != "ExportImport" {
 					sf.SpecFork().Exec(e.E)
 				}
+				// replicas live on hosts with different local time zones: nothing a node returns may depend on time.Local
+				savedLocal := time.Local
+				time.Local = zones[r%len(zones)]
 				okr, resp, errs := reps[r].Exec(e.E)
+				time.Local = savedLocal
 				digests[r] = h(reps[r].Digest())
 				outs[r] = h(reps[r].Raw() + "|" + absx.Canon(resp) + "|" + errs + "|" + map[bool]string{true: "ok", false: "fail"}[okr])
 			}
